@@ -1,5 +1,51 @@
-(* C13 property theorems (placeholder until the reduplication development lands). *)
+(* C13 property theorems: reduplicate keeps shapes and cached hashes, returns a
+   duplicate-free input unchanged without allocating, and makes all identities
+   of the result distinct.  Proofs are in Proofs/Redup. *)
 From DD Require Import Model.Redup.
-Theorem mem_nil : forall i, mem i [] = false.
-Proof. reflexivity. Qed.
-Print Assumptions mem_nil.
+From DD Require Import Proofs.Redup.RedupProofs.
+
+Local Open Scope Z_scope.
+
+Theorem redup_shape : forall hstr htup l next,
+  map shape (fst (reduplicate hstr htup l next)) = map shape l.
+Proof. exact redup_shape_proof. Qed.
+Print Assumptions redup_shape.
+
+Theorem redup_nodup : forall hstr htup l next,
+  (forall i, In i (ids_l l) -> i <= next) ->
+  NoDup (ids_l (fst (reduplicate hstr htup l next))).
+Proof. exact redup_nodup_proof. Qed.
+Print Assumptions redup_nodup.
+
+Theorem redup_keeps : forall hstr htup l next,
+  NoDup (ids_l l) ->
+  fst (reduplicate hstr htup l next) = l /\ snd (reduplicate hstr htup l next) = next.
+Proof. exact redup_keeps_proof. Qed.
+Print Assumptions redup_keeps.
+
+Theorem redup_hash_ok : forall hstr htup l next,
+  forallb (hash_ok hstr htup) l = true ->
+  forallb (hash_ok hstr htup) (fst (reduplicate hstr htup l next)) = true.
+Proof. exact redup_hash_ok_proof. Qed.
+Print Assumptions redup_hash_ok.
+
+(* an element none of whose identities occurs before it, and whose own
+   identities are distinct, is returned as the identical node at its position *)
+Theorem redup_keeps_unique : forall hstr htup pre x post next,
+  (forall i, In i (ids_l (pre ++ x :: post)) -> i <= next) ->
+  NoDup (ids x) ->
+  (forall i, In i (ids x) -> ~ In i (ids_l pre)) ->
+  exists pre' post',
+    fst (reduplicate hstr htup (pre ++ x :: post) next) = pre' ++ x :: post' /\
+    length pre' = length pre.
+Proof. exact redup_keeps_unique_proof. Qed.
+Print Assumptions redup_keeps_unique.
+
+Theorem redup_keeps_unique_count : forall hstr htup pre x post next,
+  (forall i, In i (ids_l (pre ++ x :: post)) -> i <= next) ->
+  (forall i, In i (ids x) -> count_occ Z.eq_dec (ids_l (pre ++ x :: post)) i = 1%nat) ->
+  exists pre' post',
+    fst (reduplicate hstr htup (pre ++ x :: post) next) = pre' ++ x :: post' /\
+    length pre' = length pre.
+Proof. exact redup_keeps_unique_count_proof. Qed.
+Print Assumptions redup_keeps_unique_count.
